@@ -7,7 +7,9 @@ package props
 
 import (
 	"fmt"
+	"sort"
 	"strings"
+	"sync"
 	"time"
 
 	"github.com/hneemann/parser2"
@@ -30,7 +32,7 @@ func (c04) Plan(tier string) wk.Plan {
 	}
 	return wk.Plan{
 		Level: "exploration", Cases: n, Chunk: 400, Configs: single("seq", 16), CaseBudget: 30, PerCase: true, HangIsViolation: true,
-		Rule:        "case = one byte string (<= 64 KiB) x one configuration {value generator with comments off/on, bool generator, float generator in comfort mode, bare parser with a random operator table and keyword set}. Input classes: uniform random bytes, token soups over the language alphabet, mutations (delete/insert/duplicate/swap/truncate) of generated valid programs, unterminated strings/comments/quoted identifiers, NUL bytes, invalid and truncated UTF-8 at every position class (start, middle, last, next-to-last byte), non-ASCII number/letter runes, and deep-nesting/long-chain families scaled to 16/32/64 KiB. Refuting events: the worker process dies, Parse/Generate panics, returns neither or both of (result, error), or does not return within the budget (30 s, and 150 s when re-run alone). Non-trivial = input reaches the parser with >= 3 tokens or belongs to an unterminated/invalid-UTF-8/NUL/deep-nesting class; distinct by (configuration, input).",
+		Rule:        "case = one byte string (<= 64 KiB) x one configuration {value generator with comments off/on, bool generator, float generator in comfort mode, bare parser with a random operator table and keyword set}. Input classes: uniform random bytes, token soups over the language alphabet, mutations (delete/insert/duplicate/swap/truncate) of generated valid programs, unterminated strings/comments/quoted identifiers, NUL bytes, invalid and truncated UTF-8 at every position class (start, middle, last, next-to-last byte), non-ASCII number/letter runes, deep-nesting/long-chain families scaled to 16/32/64 KiB, chains of 4..2000 nested scopes with distinct names whose innermost body refers to an outer name, and constant expressions whose folding panics on this tree (found at run time from C05's built-in enumeration) placed in 16 positions (top level, let, func body, closures, arguments, branches). Refuting events: the worker process dies, Parse/Generate panics, returns neither or both of (result, error), or does not return within the budget (30 s, and 150 s when re-run alone). Non-trivial = input reaches the parser with >= 3 tokens or belongs to an unterminated/invalid-UTF-8/NUL/deep-nesting class; distinct by (configuration, input).",
 		Floor:       2000,
 		Assumptions: []string{"the budget of 30 s is > 100x the measured cost of the slowest known-good 64 KiB family on this machine (reported in the evidence as max_case_ms); a watchdog hit is re-run alone with 5x budget before it counts"},
 	}
@@ -38,8 +40,102 @@ func (c04) Plan(tier string) wk.Plan {
 
 var c04alphabet = []string{"let", "func", "if", "then", "else", "switch", "case", "default", "try", "catch", "a", "b", "x1", "true", "false", "pi", "1", "2.5", "1e3", "1e", "1.2.3", "\"s\"", "\"", "'q'", "'", "(", ")", "[", "]", "{", "}", ".", ",", ":", ";", "+", "-", "*", "/", "%", "^", "<", ">", "<=", ">=", "=", "!=", "~", "&", "|", "!", "->", "<<", ">>", "//", "/*", "*/", " ", "\n", "\t", "\r", "²", "⁰", "×", "÷", "–", "•", "ˆ", "½", "①", "₁", "Ⅷ", "é", "日", "\x00", "\xff", "\xc3", "\xe2\x80", "\xf0\x9f", "\\", "\\n", "$", "@", "#", "?", "`", "§"}
 
+// c04FoldCandidates: constant expressions (every documented built-in x boundary arguments, from C05's
+// enumeration) whose evaluation ends in a recovered Go panic on this tree. When they are folded at Generate time
+// the panic is raised inside the optimizer; it has to stay inside Parse/Generate wherever the expression stands.
+var c04foldOnce sync.Once
+var c04foldCands []string
+
+func c04FoldCandidates() []string {
+	c04foldOnce.Do(func() {
+		c05once.Do(c05Build)
+		g := value.New()
+		seen := map[string]bool{}
+		for _, cs := range c05cases {
+			if cs.ctx != "top" || cs.expect != "any" || !strings.Contains(cs.class, ".") || strings.Contains(cs.src, "random") ||
+				strings.Contains(cs.src, "multiUse") || strings.Contains(cs.src, "9223372036854775807") || strings.Contains(cs.src, "numbers(") || strings.Contains(cs.src, "hpanic") || strings.Contains(cs.src, "boom") {
+				continue
+			}
+			for _, suffix := range []string{"", "(1)", ".size()", "[0]"} {
+				src := cs.src + suffix
+				if seen[src] {
+					continue
+				}
+				seen[src] = true
+				func() {
+					defer func() {
+						if r := recover(); r != nil {
+							c04foldCands = append(c04foldCands, src)
+						}
+					}()
+					f, _, err := g.Generate(src, "a")
+					if err == nil {
+						_, err = f.Eval(value.Int(1))
+					}
+					if err != nil && (strings.Contains(err.Error(), "runtime error") || strings.Contains(err.Error(), "panic")) {
+						c04foldCands = append(c04foldCands, src)
+					}
+				}()
+			}
+		}
+		sort.Strings(c04foldCands)
+	})
+	return c04foldCands
+}
+
 func c04Input(c *wk.Case) (string, string) {
 	r := c.Rng
+	if c.Index%16 == 15 && c.Index%32 == 15 {
+		// names resolved through many enclosing scopes: nested closures / lets / funcs with DISTINCT names whose
+		// innermost body uses the outermost name, an argument of Generate, a static function or an unknown name
+		d := []int{4, 8, 16, 24, 28, 32, 40, 48, 64, 128, 512, 2000}[r.IntN(12)]
+		use := []string{"a0", "a", "sqrt(a0)", "unknownName", "a0+a1", "1"}[r.IntN(6)]
+		var sb strings.Builder
+		switch fam := r.IntN(5); fam {
+		case 0:
+			for i := 0; i < d; i++ {
+				fmt.Fprintf(&sb, "a%d->", i)
+			}
+			sb.WriteString(use)
+		case 1:
+			for i := 0; i < d; i++ {
+				fmt.Fprintf(&sb, "(a%d->", i)
+			}
+			sb.WriteString(use + strings.Repeat(")", d))
+		case 2:
+			sb.WriteString("let a0=1; ")
+			for i := 1; i < d; i++ {
+				fmt.Fprintf(&sb, "let a%d=a%d+1; ", i, i-1)
+			}
+			sb.WriteString(use)
+		case 3:
+			for i := 0; i < d; i++ {
+				fmt.Fprintf(&sb, "[a%d->", i)
+			}
+			sb.WriteString(use + strings.Repeat("]", d))
+		default:
+			for i := 0; i < d; i++ {
+				fmt.Fprintf(&sb, "func f%d(a%d) ", i, i)
+			}
+			sb.WriteString(use + ";")
+			for i := d - 1; i >= 1; i-- {
+				fmt.Fprintf(&sb, " f%d(%d);", i, i)
+			}
+			sb.WriteString(" f0(1)")
+		}
+		return sb.String(), fmt.Sprintf("scoped-nesting-%d", d)
+	}
+	if c.Index%32 == 31 {
+		cands := c04FoldCandidates()
+		c.Count("fold_time_panic_candidates_on_this_tree", 0)
+		if len(cands) > 0 {
+			e := cands[r.IntN(len(cands))]
+			pos := []string{"%s", "let q=%s; 1", "func f(x) [x, %s]; f(1)", "func f(x) x+%s; f(1)", "(x->[x, %s])(1)", "func f(x) (y->[x, y, %s]); f(1)(2)", "[1, %s]", "{k:%s}", "if true then %s else 1",
+				"try %s catch 1", "max(1, %s)", "func f(x) let q=%s; x; f(1)", "func f(x) if x>0 then %s else 0; f(1)", "func f(x) try %s catch 0; f(1)", "[1,2].map(x->%s)", "func f(x) [1,2].map(y->%s); f(1)"}[r.IntN(16)]
+			c.Count("fold_time_panic_cases", 1)
+			return fmt.Sprintf(pos, e), "fold-time-panic"
+		}
+	}
 	switch k := c.Index % 16; {
 	case k < 3: // random bytes
 		n := r.IntN(64)
